@@ -5,3 +5,4 @@ import PT.Iter
 import PT.View
 import PT.SetOps
 import PT.Spec
+import PT.Retain
